@@ -115,3 +115,116 @@ Theorem C17_font_weight_roundtrip : forall v k, In (v, k) font_weight_as -> num_
 Proof. exact font_weight_roundtrip. Qed.
 Theorem C17_font_style_roundtrip : forall v k, In (v, k) font_style_as -> num_to_variant font_style_from k = Some v.
 Proof. exact font_style_roundtrip. Qed.
+
+(* ==== THE HAND-WRITTEN serde IMPLS AT THE LEVEL OF THE SERDE DATA MODEL (Model/SerdeTok.v, Model/Serde17.v, Proofs/SerdeFacts.v).
+   The eight types with hand-written Serialize / Deserialize (Axes, Faces, BinaryString, BrickColor, PhysicalProperties, Ref, SharedString,
+   UniqueId) are modelled as functions to and from token streams, in both presentation modes (is_human_readable true: JSON-like; false: bincode /
+   MessagePack-like).  For every value in the range of its Rust type and both modes, Deserialize reads back what Serialize wrote and leaves the
+   rest of the stream untouched; Deserialize is total on EVERY token list (a value or an error, never a panic, no fuel); what it accepts is in range;
+   human-readable Faces/Axes depend only on the SET of names (order and duplicates irrelevant); Ref reads either presentation in either mode;
+   PhysicalProperties round-trips for every f32 bit pattern, its JSON-object form accepts the fields in any order and skips unknown ones;
+   an f32 written as a JSON number (f64) reads back bit-exact unless it is a signalling NaN.  The tie: a recording Serializer and a replaying
+   Deserializer in the harness (harness/src/serdetok.rs) — the real impls' token streams and read-backs equal the extracted model's, line by line,
+   on boundary values and on malformed streams.  The concrete formats (serde_json, bincode, rmp-serde) map such streams to bytes: exercised. *)
+From RbxVerif Require Import SerdeTok Serde17 SerdeFacts.
+
+Theorem C17_serde17_roundtrip :
+  forall (m : smode) (v : sv17) (rest : list tok),
+       sv17_ok v = true -> de_value17 m (sv17_type v) (ser_value17 m v ++ rest) = Ok (v, rest).
+Proof. exact serde17_roundtrip. Qed.
+
+Theorem C17_run17_roundtrip :
+  forall (m : smode) (v : sv17) (rest : list tok),
+       sv17_ok v = true -> run_de17 m (st17_tag (sv17_type v)) (run_ser17 m v ++ rest) = Ok (v, rest).
+Proof. exact run17_roundtrip. Qed.
+
+Theorem C17_de_value17_total :
+  forall (m : smode) (ty : st17) (ts : list tok),
+       (exists (v : sv17) (rest : list tok), de_value17 m ty ts = Ok (v, rest)) \/
+       (exists c : N, de_value17 m ty ts = Err c).
+Proof. exact de_value17_total. Qed.
+
+Theorem C17_de_value17_no_panic :
+  forall (m : smode) (ty : st17) (ts : list tok), de_value17 m ty ts <> Panic.
+Proof. exact de_value17_no_panic. Qed.
+
+Theorem C17_de_value17_in_range :
+  forall (m : smode) (ty : st17) (ts : list tok) (v : sv17) (rest : list tok),
+       forallb tok_wf ts = true -> de_value17 m ty ts = Ok (v, rest) -> sv17_ok v = true /\ sv17_type v = ty.
+Proof. exact de_value17_in_range. Qed.
+
+Theorem C17_de_ser_de17 :
+  forall (m : smode) (ty : st17) (ts : list tok) (v : sv17) (rest rest' : list tok),
+       forallb tok_wf ts = true ->
+       de_value17 m ty ts = Ok (v, rest) -> de_value17 m ty (ser_value17 m v ++ rest') = Ok (v, rest').
+Proof. exact de_ser_de17. Qed.
+
+Theorem C17_ser_value17_injective :
+  forall (m : smode) (v1 v2 : sv17),
+       sv17_ok v1 = true ->
+       sv17_ok v2 = true -> sv17_type v1 = sv17_type v2 -> ser_value17 m v1 = ser_value17 m v2 -> v1 = v2.
+Proof. exact ser_value17_injective. Qed.
+
+Theorem C17_flags_human_set_eq :
+  forall (t : flag_table) (n1 n2 : option N) (l1 l2 : list bytes) (rest : list tok),
+       Forall (fun s : bytes => utf8_valid s = true) l1 ->
+       Forall (fun s : bytes => utf8_valid s = true) l2 ->
+       (forall s : bytes, In s l1 <-> In s l2) ->
+       de_flags t Human (TSeq n1 :: List.map TStr l1 ++ TSeqEnd :: rest) =
+       de_flags t Human (TSeq n2 :: List.map TStr l2 ++ TSeqEnd :: rest).
+Proof. exact flags_human_set_eq. Qed.
+
+Theorem C17_cross_ref_any_mode :
+  forall (m m' : smode) (n : N) (rest : list tok),
+       n < 2 ^ 128 -> de_Ref m (ser_Ref m' n ++ rest) = Ok (n, rest).
+Proof. exact cross_ref_any_mode. Qed.
+
+Theorem C17_physical_properties_serde_roundtrip :
+  forall (m : smode) (v : option physprops) (rest : list tok),
+       de_PhysicalProperties m (ser_PhysicalProperties m v ++ rest) = Ok (v, rest).
+Proof. exact physical_properties_serde_roundtrip. Qed.
+
+Theorem C17_unique_id_serde_roundtrip :
+  forall (m : smode) (index time : N) (random : Z) (rest : list tok),
+       index < 2 ^ 32 ->
+       time < 2 ^ 32 ->
+       (- 2 ^ 63 <= random < 2 ^ 63)%Z ->
+       de_UniqueId m (ser_UniqueId m index time random ++ rest) = Ok (index, time, random, rest).
+Proof. exact unique_id_serde_roundtrip. Qed.
+
+Theorem C17_ref_serde_roundtrip :
+  forall (m : smode) (n : N) (rest : list tok),
+       n < 2 ^ 128 -> de_Ref m (ser_Ref m n ++ rest) = Ok (n, rest).
+Proof. exact ref_serde_roundtrip. Qed.
+
+Theorem C17_phys_human_object_any_order :
+  forall (p : physprops) (order : list cfield) (n : option N) (rest : list tok),
+       NoDup order ->
+       (forall f : cfield, In f order) ->
+       de_PhysicalProperties Human
+         (TMap n
+          :: flat_map (fun f : cfield => [TStr (field_name f); TF32 (phys_get p f)]) order ++ TMapEnd :: rest) =
+       Ok (Some p, rest).
+Proof. exact phys_human_object_any_order. Qed.
+
+Theorem C17_custom_map_unknown_field :
+  forall (raw : bool) (e : closer) (acc : cacc) (k : tok) (v tail : list tok),
+       closes e k = false ->
+       custom_key raw k = Ok KIgnore ->
+       ignored_any (v ++ tail) = Ok tail ->
+       custom_map raw e acc CKey (k :: v ++ tail) = custom_map raw e acc CKey tail.
+Proof. exact custom_map_unknown_field. Qed.
+
+Theorem C17_f32_via_f64 :
+  forall x : N, x < 2 ^ 32 -> f32_is_nan x = false -> f64_to_f32 (BinValues.f64_of_f32 x) = x.
+Proof. exact f32_via_f64. Qed.
+
+Theorem C17_serde17_samples_roundtrip :
+  forallb sample_roundtrips serde17_samples = true.
+Proof. exact serde17_samples_roundtrip. Qed.
+
+Theorem C17_brick_outside_table_refuted :
+  brick_valid 4 = false /\
+       (forall (m : smode) (rest : list tok), de_BrickColor m (ser_BrickColor m 4 ++ rest) = Err ERR_BRICK).
+Proof. exact brick_outside_table_refuted. Qed.
+
